@@ -7,10 +7,10 @@ package vp
 import (
 	"bytes"
 	"compress/zlib"
-	"io"
 	"encoding/hex"
 	"encoding/json"
 	"fmt"
+	"io"
 	"os"
 	"strconv"
 	"strings"
